@@ -39,7 +39,7 @@ var times = []instant{
 
 var zones = []int{0, 3600, -18000, 19800, 0, 49500, -34200}
 
-var sizes = []int64{0, 1, 7, 4096, 1 << 31, 1<<53 + 1, 1<<62 - 1}
+var sizes = []int64{0, 1, 7, 4096, 1 << 31, 1<<53 + 1, 1<<62 - 1, -1, -(1 << 62), 1<<63 - 1, -(1 << 63)}
 
 // endpoint path as the client will hold it (url.Parse(...).Path, "" -> "/")
 func epPathOf(endpoint string) string {
@@ -424,6 +424,10 @@ func generate(out chan<- caseIn) {
 		sched(sizes...)
 	}
 
+	// ---- part 3c: answers of other servers: the client half beyond the range of this
+	// library's server (scripted multistatus, no webdav.Handler)
+	generateForeign(rng, thorough, emit)
+
 	// ---- part 4: seeded random cases
 	nRandom := 6000
 	if thorough {
@@ -622,6 +626,184 @@ func emitRandom(rng *hx.Rand, emit func(tr, ep string, be, op hx.Sx)) {
 			emit("i", ep, be, opCopy(name, d, rng.Bool(), rng.Bool()))
 		default:
 			emit("i", ep, be, opMove(name, d, rng.Bool()))
+		}
+	}
+}
+
+// ---------------------------------------------------------------- foreign answers
+
+var fLengths = []string{"7", "", " 7", "7 ", "\t7\n", "+7", "-1", "-0", "007", "9223372036854775807", "9223372036854775808",
+	"-9223372036854775808", "-9223372036854775809", "18446744073709551616", "1_000", "0x10", "7.0", "seven", "  ", "\u00a07", "\u20007\u3000",
+	"\u00857\u2028", "7\u200b", "+", "-", "--1", "+-1", "1e3", "\u0663", "7\x00", "\xa07", "\xc2", " \xe2\x80 7"}
+
+var fTimes = []string{"Sun, 06 Nov 1994 08:49:37 GMT", "Sunday, 06-Nov-94 08:49:37 GMT", "Sun Nov  6 08:49:37 1994", "", "garbage",
+	"Sun, 06 Nov 1994 08:49:37 +0100", "sun, 06 nov 1994 08:49:37 gmt", " Sun, 06 Nov 1994 08:49:37 GMT", "Mon, 06 Nov 1994 08:49:37 GMT",
+	"Sun, 6 Nov 1994 08:49:37 GMT", "Sun, 06 Nov 1994 24:00:00 GMT", "Tue, 29 Feb 2000 23:59:60 GMT", "Thu, 01 Jan 1970 00:00:00 GMT",
+	"Sat, 01 Jan 0000 00:00:00 GMT", "Fri, 31 Dec 9999 23:59:59 GMT", "Sunday, 06-Nov-70 08:49:37 GMT", "Sun Nov 16 08:49:37 1994",
+	"Sun, 06 Nov 1994 08:49:37 UTC", "1994-11-06T08:49:37Z", "Sun, 06 Nov 1994 08:49:37.5 GMT"}
+
+var fTags = []string{"\"abc\"", "W/\"abc\"", "abc", "\"\"", "", "'abc'", "`abc`", "\"a\\\"b\"", "\"a\\x41\"", "\"\u00e9\"", "\"\\u00e9\"",
+	"\"unterminated", "\"a\"b\"", " \"abc\"", "\"abc\" ", "\"a\nb\"", "\"\xff\"", "\"\\777\"", "\"\\101\"", "\"tab\there\"", "\"", "W/", "*"}
+
+var fHrefs = []string{"/a", "/a%20b", "http://example.com/a%20b?q=1#f", "a/b", "//host/p", "/a b", "/%zz", "", "/a?x=1", "/a#frag", "/%41%2f%2F",
+	"HTTP://EXAMPLE.COM", "mailto:x", "/\u00e9", "/a/../b", "./a:b", "a:b", "/a\x01", "///x", "/+", "http://[::1]:80/p", "http://h:x/p"}
+
+var fTypes = []string{"text/plain", "", " padded ", "a/b; c=\"d\"", "\u00e9", "<&>"}
+
+func fText(s string) string         { return hx.L("t", hx.S(s)) }
+func fProp(name, val string) string { return hx.L(name, val) }
+func fPS(code string, props ...string) string {
+	return hx.L(append([]string{"ps", code}, props...)...)
+}
+func fResp(hrefs []string, st string, pss ...string) string {
+	hs := []string{"h"}
+	for _, h := range hrefs {
+		hs = append(hs, hx.S(h))
+	}
+	return hx.L(append([]string{"r", hx.L(hs...), hx.L("st", st)}, pss...)...)
+}
+func foreign(status int, resps ...string) hx.Sx {
+	return sx(hx.L(append([]string{"foreign", hx.I(int64(status))}, resps...)...))
+}
+
+func generateForeign(rng *hx.Rand, thorough bool, emit func(tr, ep string, be, op hx.Sx)) {
+	ep := "http://h/p/"
+	base := func(clen, lmod, ctype, etag string) string {
+		return fPS("200", fProp("rt", "(nocoll)"), fProp("clen", fText(clen)), fProp("lmod", fText(lmod)),
+			fProp("ctype", fText(ctype)), fProp("etag", fText(etag)))
+	}
+	one := func(r string) {
+		emit("i", ep, foreign(207, r), opStat("f"))
+		emit("i", ep, foreign(207, r, r), opReadDir("f", false))
+	}
+	t0, g0 := fTimes[0], fTags[0]
+	// one dimension at a time
+	for _, l := range fLengths {
+		one(fResp([]string{"/p/f"}, "-", base(l, t0, "text/plain", g0)))
+	}
+	for _, t := range fTimes {
+		one(fResp([]string{"/p/f"}, "-", base("7", t, "text/plain", g0)))
+	}
+	for _, g := range fTags {
+		one(fResp([]string{"/p/f"}, "-", base("7", t0, "text/plain", g)))
+	}
+	for _, h := range fHrefs {
+		one(fResp([]string{h}, "-", base("7", t0, "text/plain", g0)))
+	}
+	for _, c := range fTypes {
+		one(fResp([]string{"/p/f"}, "-", base("7", t0, c, g0)))
+	}
+	// empty elements, missing properties, unknown properties, collections
+	full := []string{fProp("rt", "(nocoll)"), fProp("clen", fText("7")), fProp("lmod", fText(t0)), fProp("ctype", fText("text/plain")), fProp("etag", fText(g0))}
+	names := []string{"rt", "clen", "lmod", "ctype", "etag"}
+	for i := range full {
+		var without []string
+		without = append(without, full[:i]...)
+		without = append(without, full[i+1:]...)
+		one(fResp([]string{"/p/f"}, "-", fPS("200", without...)))
+		empty := append(append([]string{}, without...), fProp(names[i], "(e)"))
+		one(fResp([]string{"/p/f"}, "-", fPS("200", empty...)))
+		// the property in a 404 propstat, the rest in a 200 one; and the other way round
+		one(fResp([]string{"/p/f"}, "-", fPS("200", without...), fPS("404", fProp(names[i], "(e)"))))
+		one(fResp([]string{"/p/f"}, "-", fPS("404", fProp(names[i], "(e)")), fPS("200", full...)))
+		one(fResp([]string{"/p/f"}, "-", fPS("500", full[i]), fPS("200", without...)))
+		one(fResp([]string{"/p/f"}, "-", fPS("-", full[i]), fPS("200", without...)))
+		one(fResp([]string{"/p/f"}, "-", fPS("204", full[i]), fPS("200", without...)))
+		// twice, with different values: the first propstat holding it counts
+		one(fResp([]string{"/p/f"}, "-", fPS("200", full...), fPS("200", fProp(names[i], fText("other")))))
+	}
+	withX := append([]string{fProp("x", fText("v")), fProp("x", "(e)")}, full...)
+	one(fResp([]string{"/p/f"}, "-", fPS("200", withX...)))
+	one(fResp([]string{"/p/d/"}, "-", fPS("200", fProp("rt", "(coll)"), fProp("lmod", fText(t0)))))
+	one(fResp([]string{"/p/d/"}, "-", fPS("200", fProp("rt", "(coll)"), fProp("clen", fText("nonsense")), fProp("etag", fText("nonsense")))))
+	one(fResp([]string{"/p/d/"}, "-", fPS("200", fProp("rt", fText("text")), fProp("clen", fText("1")))))
+	one(fResp([]string{"/p/d/"}, "-", fPS("200", fProp("rt", "(coll)"), fProp("lmod", fText("garbage")))))
+	// hrefs: none, two; response status
+	one(fResp(nil, "-", fPS("200", full...)))
+	one(fResp([]string{"/p/f", "/p/g"}, "-", fPS("200", full...)))
+	for _, st := range []string{"200", "204", "404", "500", "301"} {
+		one(fResp([]string{"/p/f"}, st, fPS("200", full...)))
+		one(fResp([]string{"/p/f"}, st))
+		one(fResp(nil, st))
+	}
+	// the HTTP status; no response at all; three responses
+	ok := fResp([]string{"/p/f"}, "-", fPS("200", full...))
+	for _, hs := range []int{200, 201, 204, 207, 301, 400, 404, 500} {
+		emit("i", ep, foreign(hs, ok), opStat("f"))
+		emit("i", ep, foreign(hs, ok), opReadDir("f", true))
+	}
+	emit("i", ep, foreign(207), opStat("f"))
+	emit("i", ep, foreign(207), opReadDir("f", true))
+	emit("i", ep, foreign(207, ok, ok, ok), opStat("f"))
+	emit("t", ep, foreign(207, ok, ok, ok), opReadDir("f", true))
+	emit("t", ep, foreign(207, fResp([]string{"/p/f"}, "-", base(" 7", fTimes[1], "", fTags[1]))), opStat("f"))
+
+	// seeded random combinations
+	n := 1500
+	if thorough {
+		n = 15000
+	}
+	pick := func(l []string) string { return l[rng.Intn(len(l))] }
+	for i := 0; i < n; i++ {
+		var resps []string
+		for k := 1 + rng.Intn(3); k > 0; k-- {
+			var props []string
+			if rng.Chance(9, 10) {
+				props = append(props, fProp("rt", pick([]string{"(nocoll)", "(nocoll)", "(coll)", "(e)"})))
+			}
+			add := func(name string, l []string) {
+				switch rng.Intn(8) {
+				case 0:
+				case 1:
+					props = append(props, fProp(name, "(e)"))
+				default:
+					v := l[0]
+					if rng.Chance(1, 2) {
+						v = pick(l)
+					}
+					props = append(props, fProp(name, fText(v)))
+				}
+			}
+			add("clen", fLengths)
+			add("lmod", fTimes)
+			add("ctype", fTypes)
+			add("etag", fTags)
+			if rng.Chance(1, 5) {
+				props = append(props, fProp("x", fText("v")))
+			}
+			rng2 := rng.Intn(len(props) + 1)
+			var pss []string
+			switch rng.Intn(4) {
+			case 0:
+				pss = []string{fPS("200", props...)}
+			case 1:
+				pss = []string{fPS("200", props[:rng2]...), fPS(pick([]string{"404", "404", "500", "200", "-"}), props[rng2:]...)}
+			case 2:
+				pss = []string{fPS(pick([]string{"404", "403", "-"}), props[:rng2]...), fPS("200", props[rng2:]...)}
+			default:
+				pss = []string{fPS("200", props...), fPS("404")}
+			}
+			h := []string{"/p/f"}
+			if rng.Chance(1, 3) {
+				h = []string{pick(fHrefs)}
+			}
+			if rng.Chance(1, 20) {
+				h = append(h, pick(fHrefs))
+			}
+			st := "-"
+			if rng.Chance(1, 10) {
+				st = pick([]string{"200", "404", "207"})
+			}
+			resps = append(resps, fResp(h, st, pss...))
+		}
+		hs := 207
+		if rng.Chance(1, 30) {
+			hs = 200 + rng.Intn(4)*100
+		}
+		if rng.Bool() {
+			emit("i", ep, foreign(hs, resps...), opStat("f"))
+		} else {
+			emit("i", ep, foreign(hs, resps...), opReadDir("f", rng.Bool()))
 		}
 	}
 }
